@@ -240,6 +240,22 @@ func (g *StoreGen) deletion() *mocrelay.Event {
 			target = g.fresh()
 			g.future = append(g.future, target)
 		}
+		if g.R.IntN(6) == 0 {
+			// an addressable event whose d value contains a colon, named by its address (the
+			// address has more than three colon-separated parts then)
+			var colon []*mocrelay.Event
+			for _, x := range g.Offered {
+				if d, has := DValue(x); has && ClassOf(x.Kind) == Addressable && strings.Contains(d, ":") {
+					colon = append(colon, x)
+				}
+			}
+			if len(colon) > 0 {
+				target = Pick(g.R, colon)
+				k.Pubkey = target.Pubkey
+				k.Tags = append(k.Tags, mocrelay.Tag{"a", AddrTag(target)})
+				continue
+			}
+		}
 		// mostly the author's own events, sometimes someone else's
 		if target.Pubkey != k.Pubkey && g.R.IntN(3) != 0 {
 			own := []*mocrelay.Event{}
